@@ -789,9 +789,15 @@ func (c *Client) Start() (addr net.Addr, err error) {
 	// Create a context for when we kill
 	c.doneCtx, c.ctxCancel = context.WithCancel(context.Background())
 
+	// Count both pipe readers (stderr here, stdout below) before any
+	// goroutine starts: the goroutine that waits for the pipes must not find
+	// the counter at zero - and call runner.Wait - because stderr reached EOF
+	// before the stdout reader was added, and an Add that races a Wait makes
+	// sync.WaitGroup panic.
+	c.clientWaitGroup.Add(2)
+	c.pipesWaitGroup.Add(2)
+
 	// Start goroutine that logs the stderr
-	c.clientWaitGroup.Add(1)
-	c.pipesWaitGroup.Add(1)
 	// logStderr calls c.pipesWaitGroup.Done()
 	go c.logStderr(runner.Name(), runner.Stderr())
 
@@ -826,8 +832,6 @@ func (c *Client) Start() (addr net.Addr, err error) {
 	// Start a goroutine that is going to be reading the lines
 	// out of stdout
 	linesCh := make(chan string)
-	c.clientWaitGroup.Add(1)
-	c.pipesWaitGroup.Add(1)
 	go func() {
 		defer c.clientWaitGroup.Done()
 		defer c.pipesWaitGroup.Done()
